@@ -98,6 +98,10 @@ func (o *Outcome) Absorb(prop string, phase string, r *simrt.Result) bool {
 		o.Violate(prop, "sim.panic."+phase, "panic in goroutine %s during %s: %s", r.PanicG, phase, r.Panic)
 	case r.Deadlock:
 		o.Violate(prop, "sim.deadlock."+phase, "deadlock during %s: nothing runnable, no timer; goroutines: %s", phase, strings.Join(r.Blocked, " "))
+	case r.Leaked:
+		if len(o.Violations) == 0 {
+			o.Violate(prop, "sim.leak."+phase, "goroutines keep running long after the workload of %s has returned: %s", phase, strings.Join(r.Blocked, " "))
+		}
 	case r.Budget:
 		o.Inconclusive = "step budget exhausted during " + phase
 	}
